@@ -1,7 +1,7 @@
 #[cfg(feature = "stubs")]
 use pyo3_stub_gen::derive::gen_stub_pyclass;
 
-use super::Qubit;
+use super::{Qubit, QuotedString};
 use crate::{expression::Expression, pickleable_new, quil::Quil};
 
 #[derive(Clone, Debug, PartialEq, Eq, Hash)]
@@ -42,10 +42,20 @@ impl Quil for Delay {
             qubit.write(writer, fall_back_to_debug)?;
         }
         for frame_name in &self.frame_names {
-            write!(writer, " \"{frame_name}\"")?;
+            write!(writer, " {}", QuotedString(frame_name))?;
         }
         write!(writer, " ",)?;
-        self.duration.write(writer, fall_back_to_debug)
+        // Without an intervening frame name, the parser cannot tell the start of a duration
+        // expression from another qubit unless the duration is a plain real number, so anything
+        // else is parenthesized.
+        let is_plain_real = matches!(&self.duration, Expression::Number(value) if value.im == 0f64);
+        if self.frame_names.is_empty() && !is_plain_real {
+            write!(writer, "(")?;
+            self.duration.write(writer, fall_back_to_debug)?;
+            write!(writer, ")").map_err(Into::into)
+        } else {
+            self.duration.write(writer, fall_back_to_debug)
+        }
     }
 }
 
